@@ -1,4 +1,7 @@
-CONSTANT UseBuilt = TRUE
+CONSTANTS
+  UseBuilt = TRUE
+  KindsUsed = {"circuit", "unitary", "state", "system"}
+  LevelsUsed = {1, 2, 3, 4}
 SPECIFICATION Spec
 INVARIANT TypeOK
 INVARIANT NeverStuck
